@@ -324,7 +324,23 @@ func (e *Exec) evalGhostBuiltin(st *State, call *ast.CallExpr, name string) Term
 		}
 		v := e.eval(st, call.Args[0])
 		return And(Ge(v, Int(0)), Le(v, old.Alloc))
+	case "__eq":
+		return Eq(e.eval(st, call.Args[0]), e.eval(st, call.Args[1]))
+	case "__idx":
+		for i := len(e.vis) - 1; i >= 0; i-- {
+			if e.vis[i].iter != nil {
+				return st.Vars[e.vis[i].iter]
+			}
+		}
+		e.unsupported(call.Pos(), "__idx outside a range-over-slice loop")
+		return Int(0)
 	case "__vis", "__visn":
+		for i := len(e.vis) - 1; i >= 0 && name == "__vis"; i-- {
+			if e.vis[i].vis != nil {
+				k := e.evalUnboxed(st, call.Args[0])
+				return Select(st.Vars[e.vis[i].vis], k)
+			}
+		}
 		if len(e.vis) == 0 {
 			e.unsupported(call.Pos(), "__vis outside a range-over-map loop")
 			return True
@@ -695,6 +711,15 @@ type designator struct {
 //	m[*]         contents of map m
 func (e *Exec) designators(st *State, c *Contract, text string, sc *clauseScope) []designator {
 	text = strings.TrimSpace(text)
+	if ks, ok := e.P.wildcardKeys(c, text, sc); ok {
+		var ds []designator
+		for _, k := range ks {
+			// register the key with its sort
+			e.ensureKey(k, c, text, sc)
+			ds = append(ds, designator{key: k, whole: true})
+		}
+		return ds
+	}
 	mapContent := false
 	if strings.HasSuffix(text, "[*]") {
 		mapContent = true
@@ -763,6 +788,92 @@ func (e *Exec) designators(st *State, c *Contract, text string, sc *clauseScope)
 	}
 	e.unsupported(token.NoPos, "unsupported modifies designator %q", text)
 	return nil
+}
+
+// wildcardKeys: "any T.f" (field f of every T object) and "anymap T" (contents of every map of type T).
+func (p *Program) wildcardKeys(c *Contract, text string, sc *clauseScope) ([]string, bool) {
+	switch {
+	case strings.HasPrefix(text, "any "):
+		rest := strings.TrimSpace(strings.TrimPrefix(text, "any "))
+		i := strings.LastIndex(rest, ".")
+		if i < 0 {
+			return nil, false
+		}
+		t := p.lookupType(rest[:i], sc)
+		if t == nil {
+			return []string{"*"}, true
+		}
+		su := structOf(t)
+		if su == nil {
+			return []string{"*"}, true
+		}
+		for j := 0; j < su.NumFields(); j++ {
+			if su.Field(j).Name() == rest[i+1:] {
+				return []string{fieldKeyName(t, su.Field(j))}, true
+			}
+		}
+		return []string{"*"}, true
+	case strings.HasPrefix(text, "anymap "):
+		rest := strings.TrimSpace(strings.TrimPrefix(text, "anymap "))
+		t := p.lookupType(rest, sc)
+		if t == nil {
+			return []string{"*"}, true
+		}
+		if mt, ok := t.Underlying().(*types.Map); ok {
+			return mapKeyNames(mt), true
+		}
+		return []string{"*"}, true
+	case strings.HasPrefix(text, "anyptr "):
+		rest := strings.TrimSpace(strings.TrimPrefix(text, "anyptr "))
+		t := p.lookupType(rest, sc)
+		if t == nil {
+			return []string{"*"}, true
+		}
+		return []string{ptrKeyName(t)}, true
+	case text == "everything":
+		return []string{"*"}, true
+	}
+	return nil, false
+}
+
+func (p *Program) lookupType(name string, sc *clauseScope) types.Type {
+	x, err := parser.ParseExpr("(*(" + name + "))(nil)")
+	if err != nil {
+		return nil
+	}
+	info := &types.Info{Types: map[ast.Expr]types.TypeAndValue{}}
+	if err := types.CheckExpr(p.Fset, sc.pkg, sc.pos, x, info); err != nil {
+		return nil
+	}
+	if pt, ok := info.Types[x].Type.(*types.Pointer); ok {
+		return pt.Elem()
+	}
+	return nil
+}
+
+// ensureKey registers the sort of a wildcard key.
+func (e *Exec) ensureKey(k string, c *Contract, text string, sc *clauseScope) {
+	if _, ok := e.keySort[k]; ok || k == "*" {
+		return
+	}
+	switch {
+	case strings.HasPrefix(text, "any "):
+		rest := strings.TrimSpace(strings.TrimPrefix(text, "any "))
+		i := strings.LastIndex(rest, ".")
+		t := e.P.lookupType(rest[:i], sc)
+		su := structOf(t)
+		for j := 0; j < su.NumFields(); j++ {
+			if su.Field(j).Name() == rest[i+1:] {
+				e.fieldKey(t, su.Field(j))
+			}
+		}
+	case strings.HasPrefix(text, "anymap "):
+		t := e.P.lookupType(strings.TrimSpace(strings.TrimPrefix(text, "anymap ")), sc)
+		e.mapKey(t.Underlying().(*types.Map))
+	case strings.HasPrefix(text, "anyptr "):
+		t := e.P.lookupType(strings.TrimSpace(strings.TrimPrefix(text, "anyptr ")), sc)
+		e.ptrKey(t)
+	}
 }
 
 func (e *Exec) fieldDesignator(st *State, v *ast.SelectorExpr) []designator {
@@ -865,8 +976,16 @@ func (e *Exec) callContract(st *State, call *ast.CallExpr, fn *types.Func, c *Co
 			}
 		}
 		for _, k := range order {
+			if k == "*" {
+				e.havocKeys(st, map[string]bool{"*": true})
+				continue
+			}
 			cur := e.heapGet(st, k)
 			for _, d := range byKey[k] {
+				if d.whole {
+					cur = e.Ctx.Fresh("hvw", e.keySort[k])
+					break
+				}
 				cur = Store(cur, d.ref, e.Ctx.Fresh("hv", arrayElem(e.keySort[k])))
 			}
 			e.heapSet(st, k, e.Ctx.Define("hvk", cur))
